@@ -6,6 +6,7 @@
        aes_ecb_encrypt / aes_ecb_decrypt / aes_cbc_encrypt / aes_cbc_decrypt -> ModeCall .. ModeReturn
        _pkcs7_pad / _pkcs7_unpad                                             -> Pad / ValidPad / Unpad
        CryptAES.encrypt / .decrypt installed by patch_pypdf_fallback_aes()   -> WrapCall, WrapSub, WrapOutcomeOK
+       CryptAES.__init__ (one key per OBJECT)                                -> NewObj, ObjCall (variable objs)
 
    A mode call is a step machine around the block machine of AES.tla:
        ModeCall (reject wrong lengths | load the key)  -> ExpandWord* -> ( FeedBlock -> block steps
@@ -38,9 +39,10 @@ VARIABLES fn,    \* "none" | "expand" | "ecb_enc" | "ecb_dec" | "cbc_enc" | "cbc
           outp,  \* output bytes produced so far
           prev,  \* CBC chaining block
           res,   \* "" (nothing called yet) | "run" | "ok" | "ValueError"
-          wr     \* the stream-wrapper call in progress (record), WrNone when there is none
+          wr,    \* the stream-wrapper call in progress (record), WrNone when there is none
+          objs   \* the live wrapper objects: a function  object id -> the key that object was constructed with
 modevars == << fn, iv, inp, outp, prev, res >>
-allvars  == << key, w, st, rnd, ph, fn, iv, inp, outp, prev, res, wr >>
+allvars  == << key, w, st, rnd, ph, fn, iv, inp, outp, prev, res, wr, objs >>
 
 ModeFns == {"ecb_enc", "ecb_dec", "cbc_enc", "cbc_dec"}
 IsEnc(f) == f \in {"ecb_enc", "cbc_enc"}
@@ -108,9 +110,22 @@ PayloadOf(d) == SubSeq(d, 17, Len(d))
 PayloadEmpty(d) == Len(d) <= 16
 PayloadAligned(d) == Len(d) > 16 /\ (Len(d) - 16) % 16 = 0
 
+\* a wrapper call may follow a finished one (histories of several calls on several live objects)
 WrapCall(f, k, d) ==
-    /\ wr.ph = "none" /\ fn = "none" /\ f \in WrapFns
+    /\ wr.ph \in {"none", "end"} /\ fn = "none" /\ res # "run" /\ f \in WrapFns
     /\ wr' = [fn |-> f, key |-> k, data |-> d, ph |-> "called"]
+    /\ UNCHANGED objs
+
+(* Object identity.  CryptAES(key) constructs a wrapper OBJECT; every later encrypt / decrypt on that object
+   works under the key IT was constructed with, however many other objects (other keys, other key sizes, the
+   same key again) were constructed or used in between.  Deviation SharedWrapperKey (sensitivity only): the key
+   is shared state of all objects, the most recently constructed one wins.                                   *)
+NoObjs == [o \in {} |-> << >>]
+NewObj(o, k) ==
+    /\ wr.ph \in {"none", "end"} /\ o \notin DOMAIN objs
+    /\ objs' = [x \in DOMAIN objs \cup {o} |->
+                  IF x = o \/ "SharedWrapperKey" \in Deviations THEN k ELSE objs[x]]
+ObjCall(f, o, d) == o \in DOMAIN objs /\ WrapCall(f, objs[o], d)
 
 \* what the wrapper may hand to the CBC layer (f, k, v, d = function, key, iv, data of that call)
 WrapSubArgsOK(f, k, v, d) ==
@@ -127,6 +142,7 @@ WrapSub(f, k, v, d) ==
     /\ WrapSubArgsOK(f, k, v, d)
     /\ ModeCall(f, k, v, d)
     /\ wr' = [wr EXCEPT !.ph = "sub"]
+    /\ UNCHANGED objs
 
 WrapDontCare ==
     /\ wr.fn = "wrap_dec"
@@ -147,5 +163,5 @@ WrapOutcomeOK(kind, val) ==
        /\ \/ kind = "ret"   /\ res = "ok" /\ ValidPad(outp) /\ val = Unpad(outp)
           \/ kind = "raise" /\ res = "ValueError" /\ val = "ValueError"
 
-WrapEnd == wr' = [wr EXCEPT !.ph = "end"]
+WrapEnd == wr' = [wr EXCEPT !.ph = "end"] /\ UNCHANGED objs
 =============================================================================
